@@ -25,3 +25,6 @@ def check(ctx: Ctx) -> None:
     # gather_and_close waits for what the registries show: a task overwritten by another one with the same id is invisible to it (id discipline shared with C11)
     from . import naming as _N
     _N.r_id_discipline(ctx, "R08.9")
+    # 'it returns': a spawner blocked on a full pool is woken only by a released slot - a slot that is acquired and then neither handed
+    # to a task nor given back (e.g. the acquirer is interrupted in between) leaves that spawner, and gather_and_close with it, waiting forever
+    S.r_who_release(ctx, "R08.10")
